@@ -26,6 +26,9 @@ def run(ctx: Ctx, chk) -> None:
     n = codec.check_delim1(ctx, chk, rule, only_funcs={f"{codec.SCHEMA}.to_dict"})
     chk.floor(rule, "split sites in MessageSchema.to_dict", n, 1)
     chk.run_rule(fresh_decode, ctx)
+    from .mmtemplates import template1
+
+    chk.run_rule(lambda c, k: template1(c, k, [codec.SCHEMA]), ctx)
 
 
 def fresh_decode(ctx: Ctx, chk) -> None:
